@@ -106,6 +106,17 @@ def _f2(v):
         same_type = b["err"]["etype"] == a["err"]["cls"] or (v["oracle"] == "C02.final_outcome_depends_on_interruptions" and b["err"]["etype"] is None)
         return b["err"]["cls"] == "CallableRuntimeError" and a["err"]["cls"] != "CallableRuntimeError" and same_type and b["err"]["msg"] == a["err"]["msg"]
     if "ok" in a and "ok" in b and isinstance(a["ok"], str) and isinstance(b["ok"], str):
+        # observations are '|'-joined per statement; nested/long ones appear as digests (prefix + '#' + length).  The only
+        # admissible difference is, per component, the error of a failing wait_for_condition in its two forms.
+        pa, pb = a["ok"].split("|"), b["ok"].split("|")
+        if len(pa) == len(pb) and pa != pb:
+            def pair_ok(x, y):
+                if x == y or _f2_rewrite(x) == y or (v["oracle"] == "C02.final_outcome_depends_on_interruptions" and _f2_rewrite(y) == x):
+                    return True
+                return ("#" in x and "#" in y and x.startswith("E:") and y.startswith("E:")
+                        and (x.startswith("E:Cal") != y.startswith("E:Cal")))
+            if all(pair_ok(x, y) for x, y in zip(pa, pb)):
+                return True
         if _f2_rewrite(a["ok"]) == b["ok"] or _f2_rewrite(a["ok"])[:8] == b["ok"][:8] and "#" in b["ok"]:
             return True
         # long observations are compared as digests (first 8 characters + length): the error of the failing condition leads
